@@ -124,6 +124,63 @@ func c10Scenarios() []c10Scenario {
 				return err
 			}}
 		}},
+		// ack ids are delivery ids and are resolved whatever subscription the request
+		// (or the stream) names: an ack that reaches the server under another
+		// subscription's name takes effect like any other, so it owes the same wake-up
+		{"ack-of-ordered-predecessor-under-another-subscription", func(e *rig.Env, v int) *c10World {
+			mkTopic(e, T)
+			mkTopic(e, T2)
+			mkSub(e, &pubsubpb.Subscription{Name: sub(0), Topic: T, EnableMessageOrdering: true})
+			mkSub(e, &pubsubpb.Subscription{Name: sub(1), Topic: T2})
+			must(e.Pub.Publish(e.Ctx, &pubsubpb.PublishRequest{Topic: T, Messages: []*pubsubpb.PubsubMessage{{Data: []byte(`1`), OrderingKey: "k"}, {Data: []byte(`2`), OrderingKey: "k"}}}))
+			ids := pullIDs(e, sub(0), 5)
+			if len(ids) != 1 {
+				panic(fmt.Sprintf("expected only the predecessor, got %d", len(ids)))
+			}
+			if (v/3)%2 == 1 {
+				// the other subscription has a delivery of its own, acknowledged in the same request
+				must(e.Pub.Publish(e.Ctx, &pubsubpb.PublishRequest{Topic: T2, Messages: []*pubsubpb.PubsubMessage{{Data: []byte(`3`)}}}))
+				own := pullIDs(e, sub(1), 5)
+				if (v/6)%2 == 0 {
+					ids = append(own, ids...)
+				} else {
+					ids = append(ids, own...)
+				}
+			}
+			if v%2 == 0 {
+				actions.WakeAllInternal()
+			}
+			w := &c10World{e: e, waitSubs: []string{sub(0)}}
+			if v%3 == 0 {
+				w.writer = func(ctx context.Context) error {
+					_, err := e.Sub.Acknowledge(ctx, &pubsubpb.AcknowledgeRequest{Subscription: sub(1), AckIds: ids})
+					return err
+				}
+				return w
+			}
+			w.writer = func(ctx context.Context) error {
+				// on a stream opened on the other subscription
+				fs := rig.NewFakeStream(ctx)
+				hdone := make(chan struct{})
+				go func() { _ = e.Sub.StreamingPull(fs); close(hdone) }()
+				fs.Push(&pubsubpb.StreamingPullRequest{Subscription: sub(1), StreamAckDeadlineSeconds: 10, MaxOutstandingMessages: 10})
+				rig.Quiesce()
+				fs.Push(&pubsubpb.StreamingPullRequest{AckIds: ids})
+				// until the acknowledgement is committed (the writer's own boundary delays included)
+				for j := 0; j < 8; j++ {
+					rig.Quiesce()
+					var open int
+					if err := e.RawDB().QueryRowContext(context.Background(), `SELECT count(*) FROM deliveries WHERE completed_at IS NULL AND attempts > 0`).Scan(&open); err == nil && open == 0 {
+						break
+					}
+					time.Sleep(c10D / 2)
+				}
+				fs.Cancel()
+				<-hdone
+				return nil
+			}
+			return w
+		}},
 		{"deadletter-of-ordered-predecessor-by-nack", func(e *rig.Env, v int) *c10World {
 			mkTopic(e, T)
 			mkTopic(e, T2)
